@@ -71,7 +71,8 @@ pub const REWRITES: &[&str] = &[
     "unknown-ts:core", "unknown-ts:extra_core", "unknown-ts:build", "empty-ts:extra_core", "combined-ts:extra_core", "combined-ts:core",
     "dup-context:core", "dup-context:extra_core", "str-in:core", "str-in:extra_core", "uint-in:extra_core", "custom-in:core", "custom-in:extra_core",
     "dup-primary-apart", "dup-secondary-apart", "empty-precedence", "drop-precedence:Minor", "drop-precedence:Major", "drop-precedence:Post",
-    "dup-precedence:Major", "reverse-precedence",
+    "dup-precedence:Major", "reverse-precedence", "padded-ts:core", "padded-ts:extra_core", "padded-ts:build", "lower-ts:build", "long-ts:core",
+    "percent-ts:build", "percent-ts:extra_core",
 ];
 
 fn hostile_none_argv(r: &mut Rng) -> Vec<String> {
@@ -353,6 +354,10 @@ pub fn rewrite(doc: &str, kind: &str) -> Option<String> {
                 "unknown-ts" => "var(ts(\"BOGUS\"))",
                 "empty-ts" => "var(ts(\"\"))",
                 "combined-ts" => "var(ts(\"YYYYMMDD\"))",
+                "padded-ts" => "var(ts(\"YYYY \"))",
+                "lower-ts" => "var(ts(\"yyyy\"))",
+                "long-ts" => "var(ts(\"YYYYY\"))",
+                "percent-ts" => "var(ts(\"%Q\"))",
                 "dup-context" => "var(Distance)",
                 "str-in" => "str(\"lit\")",
                 "uint-in" => "uint(7)",
